@@ -53,6 +53,11 @@ pub enum Op {
     Propagate,
     /// the clock advances by this many seconds, nobody acts
     Wait(u64),
+    /// instruction level only: another instruction the global fee admin may send that is NOT one of the pause
+    /// instructions — `edit_global_fee_state` (0: same admin, fee parameters changed; 1: the admin key handed over to
+    /// the admin's second key; 2: handed back). "Whatever the global fee admin does": the observed pause state is
+    /// judged by the same clauses. The pure system ignores it.
+    Other(u8),
 }
 
 impl Op {
@@ -63,6 +68,7 @@ impl Op {
             Op::PermissionlessUnpause => "U".into(),
             Op::Propagate => "G".into(),
             Op::Wait(d) => format!("W{d}"),
+            Op::Other(k) => format!("O{k}"),
         }
     }
     pub fn decode(s: &str) -> Option<Op> {
@@ -71,6 +77,7 @@ impl Op {
             "A" => Some(Op::AdminUnpause),
             "U" => Some(Op::PermissionlessUnpause),
             "G" => Some(Op::Propagate),
+            _ if s.starts_with('O') => s[1..].parse::<u8>().ok().map(Op::Other),
             _ => s.strip_prefix('W').and_then(|d| d.parse::<u64>().ok()).map(Op::Wait),
         }
     }
@@ -231,6 +238,7 @@ impl PauseSystem for PureSys {
                 self.now = t.checked_add(d as i64).expect("model time overflow");
                 true
             }
+            Op::Other(_) => true,
         }
     }
 
@@ -348,7 +356,7 @@ impl RefMachine {
                 self.clear();
                 true
             }
-            Op::Propagate | Op::Wait(_) => true,
+            Op::Propagate | Op::Wait(_) | Op::Other(_) => true,
         }
     }
     fn matches(&self, o: &Obs) -> bool {
@@ -524,7 +532,7 @@ impl Spec {
                     self.cache_until = if after.flag { Some(after.paused_until()) } else { None };
                 }
             }
-            Op::Wait(_) => {}
+            Op::Wait(_) | Op::Other(_) => {}
         }
         if ok && matches!(op, Op::AdminUnpause | Op::PermissionlessUnpause) {
             info.unpause_ok = true;
@@ -1170,6 +1178,10 @@ fn run_random(ctx: &Ctx, worker: usize, cases: u32, len_lo: usize, len_hi: usize
                         Op::Wait(d) => {
                             b.push(5);
                             b.extend_from_slice(&d.to_le_bytes());
+                        }
+                        Op::Other(k) => {
+                            b.push(6);
+                            b.push(*k);
                         }
                     }
                 }
